@@ -19,7 +19,7 @@ for m in idx:
     p = subprocess.run(['patch', '-p1', '-s', '-i', os.path.join(V, 'selftest/patches', name + '.diff')], cwd=repo)
     r = {'property': m['property'], 'applied': p.returncode == 0}
     if p.returncode == 0:
-        feat = ['--features', 'sdp,blas-src,lapack-src'] if m['property'] in ('C18', 'C13') else []
+        feat = ['--features', 'sdp,blas-src,lapack-src'] if m['property'] in ('C18', 'C13', 'C17') else []
         env = dict(os.environ, CARGO_TARGET_DIR=os.environ.get('AUDIT_TARGET', '/tmp/mutant-target'), CARGO_NET_OFFLINE='true', RUSTFLAGS='-Awarnings')
         c = subprocess.run(['cargo', 'check', '--offline', '--lib'] + feat, cwd=repo, env=env, stdout=subprocess.PIPE, stderr=subprocess.STDOUT, text=True)
         r['compiles'] = c.returncode == 0
